@@ -24,17 +24,18 @@ class Key:
     upward=True (integers only) gives the semantics of a domain that keeps a single upper bound: an outcome of a
     condition is possible for v if it is possible for some v' >= v (a larger value "carries" v along)."""
 
-    def __init__(self, name, upward=False):
+    def __init__(self, name, upward=False, target="self"):
         self.name = name
         self.upward = upward
+        self.target = target     # "self" | ("abs", i) | ("rel", k): which group member's field is governed
 
     def is_read(self, sym):
         n = self.name
         if n == "GroupSize":
             return sym == ("glob", "GroupSize")
         if n == "Kind":
-            return sym[0] == "read" and sym[1] == "self" and sym[2] in KIND_FIELDS
-        return sym[0] == "read" and sym[1] == "self" and sym[2] == n
+            return sym[0] == "read" and sym[1] == self.target and sym[2] in KIND_FIELDS
+        return sym[0] == "read" and sym[1] == self.target and sym[2] == n
 
     def read_value(self, sym, v):
         if self.name == "Kind":
@@ -236,9 +237,25 @@ class Program:
                 self.top_at[k] = pop()
                 if op == "return":
                     stack = []
+            elif op in ("+", "-"):
+                b = pop()
+                a = pop()
+                stack.append(("arith", op, a, b))
             elif op == "gtxns":
-                pop()
-                stack.append(("opaque",))
+                idx = pop()
+                tgt = None
+                gi = ("read", "self", "GroupIndex")
+                if idx[0] == "const":
+                    tgt = ("abs", idx[1])
+                elif idx == gi:
+                    tgt = "self"
+                elif idx[0] == "arith":
+                    _o, a, b = idx[1], idx[2], idx[3]
+                    if a == gi and b[0] == "const":
+                        tgt = ("rel", b[1] if _o == "+" else -b[1])
+                    elif b == gi and a[0] == "const" and _o == "+":
+                        tgt = ("rel", a[1])
+                stack.append(("read", tgt, ins[1]) if tgt is not None else ("opaque",))
             elif op in ("gtxna",):
                 stack.append(("opaque",))
             elif op in ("gtxnsa", "gtxnas"):
